@@ -215,7 +215,7 @@ class SchemaGen:
         for op in ('query', 'mutation', 'subscription'):
             if op != 'query' and r.random() < 0.6:
                 continue
-            nm = (r.choice(['RootQ', 'MyMutation', 'Subs', 'Root']) + op[0].upper()) if custom else names[op]
+            nm = (r.choice(['RootQ', 'MyMutation', 'Subs', 'Root']) + op[0].upper()) if (custom or (op != 'query' and r.random() < 0.15)) else names[op]
             T[nm] = {'kind': 'object', 'desc': self.text(), 'interfaces': [], 'fields': field_set(r.randint(1, 3))}
             m['roots'][op] = nm
         if custom and r.random() < 0.3 and 'Query' not in T:
@@ -231,6 +231,8 @@ class SchemaGen:
                 args[r.choice(['if', 'reason', 'n', 'opts'])] = {'type': ref, 'default': default, 'desc': self.text(0.2),
                                                                  'deprecation': self.dep(0.1) if (ref[0] != 'nn' or default is not None) else None}
             locs = r.sample(TYPE_SYSTEM_LOCS + EXEC_LOCS, r.randint(1, 4))
+            if r.random() < 0.3 and 'SCHEMA' not in locs:
+                locs.append('SCHEMA')
             m['directives'][f'dir{i}'] = {'desc': self.text(), 'args': args, 'locations': locs, 'repeatable': r.random() < 0.3,
                                           'deprecation': self.dep(0.3) if self.depdir else None}
         # shuffle definition order
@@ -409,3 +411,139 @@ def build_programmatic(m, default_mode='literal'):
     roots = m['roots']
     return G.GraphQLSchema(query=objs.get(roots['query']), mutation=objs.get(roots['mutation']), subscription=objs.get(roots['subscription']),
                            types=[objs[n] for n in m['types']], directives=directives, description=m['schema_desc'])
+
+
+# ---------------- splitting a model into base + extension document ----------------
+def _iv_sdl(n, a):
+    return ((q(a['desc']) + ' ' if a['desc'] is not None else '') + f'{n}: {ref_str(a["type"])}'
+            + (f' = {a["default"]}' if a['default'] is not None else '') + dep_sdl(a['deprecation']))
+
+
+def _field_sdl(fn, f):
+    return desc_sdl(f['desc'], '  ') + f'  {fn}{args_sdl(f["args"])}: {ref_str(f["type"])}{dep_sdl(f["deprecation"])}'
+
+
+def references(m, skip_type=None):
+    """Names of types referenced anywhere in model m (optionally ignoring one type's own body)."""
+    out = set()
+    for name, t in m['types'].items():
+        if name == skip_type:
+            continue
+        k = t['kind']
+        if k in ('object', 'interface'):
+            out.update(t['interfaces'])
+            for f in t['fields'].values():
+                out.add(named_of(f['type']))
+                out.update(named_of(a['type']) for a in f['args'].values())
+        elif k == 'union':
+            out.update(t['members'])
+        elif k == 'input':
+            out.update(named_of(f['type']) for f in t['fields'].values())
+    for d in m['directives'].values():
+        out.update(named_of(a['type']) for a in d['args'].values())
+    out.update(v for v in m['roots'].values() if v)
+    return out
+
+
+def split_extension(rng, m):
+    """Return (base model A, extension SDL text B) such that A + B defines exactly m (member order preserved)."""
+    A = copy.deepcopy(m)
+    blocks = []
+    for name, t in A['types'].items():
+        k = t['kind']
+        full = m['types'][name]
+        if k in ('object', 'interface'):
+            names = list(t['fields'])
+            cut = rng.randint(1, len(names)) if rng.random() < 0.6 else len(names)
+            moved = names[cut:]
+            ifaces = []
+            if t['interfaces'] and rng.random() < 0.4:
+                keep = rng.randint(0, len(t['interfaces']))
+                ifaces = t['interfaces'][keep:]
+                t['interfaces'] = t['interfaces'][:keep]
+            if moved or ifaces:
+                for fn in moved:
+                    del t['fields'][fn]
+                kw = 'type' if k == 'object' else 'interface'
+                body = (' {\n' + '\n'.join(_field_sdl(fn, full['fields'][fn]) for fn in moved) + '\n}') if moved else ''
+                blocks.append(f'extend {kw} {name}' + ((' implements ' + ' & '.join(ifaces)) if ifaces else '') + body)
+        elif k == 'input':
+            names = list(t['fields'])
+            cut = rng.randint(1, len(names)) if rng.random() < 0.6 else len(names)
+            moved = names[cut:]
+            if moved:
+                for fn in moved:
+                    del t['fields'][fn]
+                blocks.append(f'extend input {name} {{\n' + '\n'.join('  ' + _iv_sdl(fn, full['fields'][fn]) for fn in moved) + '\n}')
+        elif k == 'enum':
+            names = list(t['values'])
+            cut = rng.randint(1, len(names)) if rng.random() < 0.6 else len(names)
+            moved = names[cut:]
+            if moved:
+                for vn in moved:
+                    del t['values'][vn]
+                blocks.append(f'extend enum {name} {{\n' + '\n'.join(desc_sdl(full['values'][vn]['desc'], '  ') + f'  {vn}{dep_sdl(full["values"][vn]["deprecation"])}'
+                                                                     for vn in moved) + '\n}')
+        elif k == 'union':
+            cut = rng.randint(1, len(t['members'])) if rng.random() < 0.6 else len(t['members'])
+            moved = t['members'][cut:]
+            if moved:
+                t['members'] = t['members'][:cut]
+                blocks.append(f'extend union {name} = ' + ' | '.join(moved))
+    # whole directives move to the extension document
+    new_defs = []
+    for dn in list(A['directives']):
+        if rng.random() < 0.4:
+            d = A['directives'].pop(dn)
+            new_defs.append(desc_sdl(d['desc']) + f'directive @{dn}{args_sdl(d["args"])}{dep_sdl(d.get("deprecation"))}'
+                            + (' repeatable' if d['repeatable'] else '') + ' on ' + ' | '.join(d['locations']))
+    # a non-query root operation type may be added by `extend schema` when the base declares its roots explicitly
+    default_like = any(nm in ('Query', 'Mutation', 'Subscription') for nm in A['types'])
+    schema_ext = []
+    if not default_like:
+        for op in ('mutation', 'subscription'):
+            if A['roots'][op] and rng.random() < 0.6:
+                schema_ext.append(f'{op}: {A["roots"][op]}')
+                A['roots'][op] = None
+    # with conventional root names only operation types of other names can be added later
+    if default_like:
+        for op, conv in (('mutation', 'Mutation'), ('subscription', 'Subscription')):
+            if A['roots'][op] and A['roots'][op] != conv and rng.random() < 0.7:
+                schema_ext.append(f'{op}: {A["roots"][op]}')
+                A['roots'][op] = None
+    # a directive applied to the schema by extension (no effect on the printed schema)
+    applied = [dn for dn, d in m['directives'].items() if 'SCHEMA' in d['locations']
+               and all(a['type'][0] != 'nn' or a['default'] is not None for a in d['args'].values())]
+    sdir = (' @' + rng.choice(applied)) if applied and rng.random() < 0.6 else ''
+    if schema_ext or sdir:
+        blocks.append('extend schema' + sdir + ((' { ' + ' '.join(schema_ext) + ' }') if schema_ext else ''))
+    # whole types that nothing in the base refers to any more move to the extension document, in model order
+    moved_types = []
+    for name in list(A['types']):
+        if name in A['roots'].values() or rng.random() < 0.5:
+            continue
+        if name not in references(A, skip_type=name) and name not in references(A):
+            moved_types.append(name)
+            t = A['types'].pop(name)
+            A['types'][name] = t      # keep lookup for rendering below
+    sub = {'types': {n: A['types'][n] for n in moved_types}, 'directives': {}, 'roots': {'query': None, 'mutation': None, 'subscription': None},
+           'schema_desc': None}
+    for n in moved_types:
+        del A['types'][n]
+    type_defs = [x for x in render_types_only(sub)]
+    order_sensitive = type_defs + new_defs      # relative order of new types / directives decides their order in the schema
+    rng.shuffle(blocks)
+    # interleave: extensions may come anywhere, definitions keep their relative order
+    out = []
+    defs = list(order_sensitive)
+    while blocks or defs:
+        if defs and (not blocks or rng.random() < 0.5):
+            out.append(defs.pop(0))
+        else:
+            out.append(blocks.pop())
+    return A, '\n\n'.join(out) + '\n', moved_types
+
+
+def render_types_only(m):
+    text = render_sdl({**m, 'schema_desc': None, 'roots': {'query': None, 'mutation': None, 'subscription': None}, 'directives': {}})
+    return [b for b in text.strip('\n').split('\n\n') if b and not b.startswith('schema')] if m['types'] else []
